@@ -180,10 +180,13 @@ def calls_for(r, X, Y, Zt, Zd):
         for rel in ("<", "<=", "==", ">=", ">", "!="):
             for op in ("generalized_affine_image", "generalized_affine_preimage"):
                 if r.random() < 0.5: add(op, "%s %d %s %d %s" % (op, v, rel, den, ex), "%s %d %s %d %d" % (op, v, rel, e, d0))
-        for e2 in (n, n + 1):
-            ex2 = expr_text(e2, 1, [1] * e2)
-            for op in ("bounded_affine_image", "bounded_affine_preimage"):
-                add(op, "%s %d %d %s %s" % (op, v, den, ex, ex2), "%s %d %d %d %d" % (op, v, e, e2, d0))
+    # bounded images: variable, lower bound, upper bound, denominator falsified alone and in pairs
+    for (v, lb, ub, den) in itertools.product((max(n - 1, 0), n), (n, n + 1), (n, n + 2), (1, 0)):
+        bad = (v >= n) + (lb > n) + (ub > n) + (den == 0)
+        if bad == 0 or bad > 2: continue
+        lx = expr_text(lb, r.randint(-2, 2), [r.randint(-2, 2) for _ in range(lb)]); ux = expr_text(ub, 1, [1] * ub)
+        for op in ("bounded_affine_image", "bounded_affine_preimage"):
+            add(op, "%s %d %d %s %s" % (op, v, den, lx, ux), "%s %d %d %d %d" % (op, v, lb, ub, 1 if den == 0 else 0))
     if n > 0:
         ex = expr_text(n, 1, [1] * n)
         for rel in (("!=",) + (("<", ">") if closed else ())):
